@@ -24,11 +24,11 @@ RULE = (
 ASSUMPTIONS = [
     "BF2 grammar restricted to layouts whose meaning does not depend on the importer's instruction-latching order (DESIGN.md section 6): a new section starts with a base tag type; "
     "pre-instructions only when the previous section was already emitted (REBOOT) or both use CHECK_FWVER first; SELECT / SELECT_IF are restated by every later section once used; "
-    "loader sections carry SELECT_IF with a known protocol; ignored sections carry no instructions; filters are well-formed",
+    "loader sections carry SELECT_IF with a known protocol; ignored sections carry instructions only together with a REBOOT of their own (then nothing stated for them may reach the next section); filters are well-formed",
     "any exception counts as rejection of a negative variant (types are judged in C14)",
 ]
 REQUIRED_CLASSES = ["sections>=2", "page-crossing", "neg.gap-last-line", "neg.gap", "neg.nonzero-start", "neg.unknown-tagtype", "neg.no-bf3update", "debug-version",
-                    "compat-section", "ignored-section", "select-filter", "memoryimage.direct", "metamorphic", "neg.overlap", "route=path", "neg.missing-page"]
+                    "compat-section", "ignored-section", "ignored-section.with-own-reboot", "select-filter", "memoryimage.direct", "metamorphic", "neg.overlap", "route=path", "neg.missing-page"]
 
 B3 = sut.B3
 Bf2BinLine = B3.Bf2BinLine
@@ -104,6 +104,8 @@ def check_import(case, rec):
         k = BM.SECTION_KINDS[s["base"]]
         if k["type"] is None:
             rec.cls("ignored-section")
+            if s.get("reboot"):
+                rec.cls("ignored-section.with-own-reboot")
         elif k["fmt"] == BM.FMT_COMPAT:
             rec.cls("compat-section")
         elif len(s["image"]) > 0x10000:
@@ -337,6 +339,13 @@ def abstract_file(draw, tier="quick", max_sections=5, neg=None):
                 prev_had_check = False
             s["reboot"] = reboot
             pending = not reboot
+        elif not pending and draw(st.integers(0, 2)) == 0:
+            # an IGNORED prepare/activate section closed by its own REBOOT, optionally with a checksum / version check stated for it:
+            # nothing of that may show up on the next section (only when no earlier section is still pending - the REBOOT would close that one)
+            s["reboot"] = True
+            if draw(st.booleans()):
+                s["post"] = [("CRC", draw(st.integers(0, 0xFFFFFFFF)))] + ([("CHECK_FWVER", bytes([0, 0, 2, 7, 7]))] if draw(st.booleans()) else [])
+            prev_had_check = False
         sections.append(s)
     return dict(header=header, sections=sections, noise=draw(st.booleans()))
 
@@ -431,6 +440,47 @@ def enum_pages(tier, shard, nshards, rng):
                 yield dict(file=dict(header=hdr, sections=[sec], noise=False), style=i % 4, alt=dict(sections=[dict(line_sizes=[200, 33], fe=False, group_breaks=[])], style=1))
 
 
+def enum_skipped_section(tier, shard, nshards, rng):
+    """CONSTRUCTED: a section whose SELECT_IF names an interface BF3 does not know (the importer leaves such a section out) and which carries
+    one-shot instructions of its own (checksum, version check), FOLLOWED by an ordinary section without them: the later section's tags are
+    what ITS instructions state - nothing stated for the skipped section may reappear there.  Layout: the skipped section's instructions
+    follow its data and it has no REBOOT, so that it is closed by the next section's data (the importer's clean path for leaving it out)."""
+    hdr = dict(fwid="1100", filler=" BALTECH_FW", version="2.05.01", rest="", creator="ConfigEditor", bf3update="1")
+    i = 0
+    for base_a, base_b in ((0x70, 0x84), (0x84, 0x35), (0x35, 0x84), (0x70, 0x39), (0x84, 0x70)):
+        for proto in ("BRP-RS485", "X", "brp"):
+            for extra in ([("CRC", 0x11223344)], [("CHECK_FWVER", bytes([0, 0, 3, 1, 2, 3]))], [("CRC", 0xABCDEF1), ("CHECK_FWVER", bytes([1, 2, 2, 9, 9]))]):
+                i += 1
+                if i % nshards != shard:
+                    continue
+
+                def sec(base, post, reboot):
+                    k = BM.SECTION_KINDS[base]
+                    d = dict(base=base, fe=bool(i % 2), pre=[], post=post, reboot=reboot, group_breaks=[])
+                    if k["fmt"] == BM.FMT_BLOB:
+                        d["image"] = bytes((rng.getrandbits(8)) for _ in range(40 + i))
+                        d["line_sizes"] = [16]
+                    else:
+                        d["image"] = b""
+                        d["raw_lines"] = [(base, bytes(rng.getrandbits(8) for _ in range(5)), b"")]
+                    return d
+
+                flt = [("SELECT", bytes.fromhex("0101009B"))] if BM.SECTION_KINDS[base_b]["type"] == BM.PERIPHERAL else []
+                a = sec(base_a, [("SELECT_IF", proto)] + extra, False)
+                b = sec(base_b, flt + [("SELECT_IF", "BRP-SER")], True)
+                yield dict(file=dict(header=hdr, sections=[a, b], noise=bool(i % 2)), style=i % 4, alt=None, skipped=True)
+                # second layout: the skipped section is closed by its own REBOOT and the next section states its instructions BEFORE its data
+                a2 = sec(base_a, [("SELECT_IF", proto)] + extra, True)
+                b2 = sec(base_b, [], True)
+                b2["pre"] = flt + [("SELECT_IF", "BRP-SER")]
+                yield dict(file=dict(header=hdr, sections=[a2, b2], noise=bool(i % 2)), style=(i + 1) % 4, alt=None, skipped=True)
+
+
+def check_skipped(case, rec):
+    rec.cls("skipped-section-with-one-shot-instructions")
+    check_import(case, rec)
+
+
 def enum_missing_page(tier, shard, nshards, rng):
     """CONSTRUCTED negatives: a blob image with one or more WHOLE 64 KiB pages missing (the page before the hole is full and the
     next present page starts at in-page address 0), and pages in non-monotonic order: must be rejected"""
@@ -459,6 +509,7 @@ def enum_missing_page(tier, shard, nshards, rng):
 def parts(tier):
     return [
         Part("pages", check=check_import, enum=enum_pages, quick=(8, 0), thorough=(16, 0)),
+        Part("skipped_section", check=check_skipped, enum=enum_skipped_section, quick=(4, 0), thorough=(8, 0)),
         Part("missing_page", check=check_negative, enum=enum_missing_page, quick=(4, 0), thorough=(8, 0)),
         Part("import", check=check_import, strategy=lambda t: strat_import(t), quick=(16, 300), thorough=(16, 1200)),
         Part("negative", check=check_negative, strategy=lambda t: strat_negative(t), quick=(16, 250), thorough=(16, 1200)),
